@@ -3,6 +3,13 @@
 VM_STRUCT_PRELUDE = r'''
 #[verifier::external_trait_specification]
 pub trait ExSystemInterface: Debug { type ExternalTraitSpecificationFor: SystemInterface; }
+impl Vm {
+    pub closed spec fn stack_spec(&self) -> crate::vm::stack::Stack { self.stack }
+    pub closed spec fn regs(&self) -> (usize, (usize, usize), usize) { (self.ep, self.ip, self.bp) }
+    pub closed spec fn acc_spec(&self) -> VCell { self.acc }
+    pub closed spec fn heap_spec(&self) -> crate::vm::heap::Heap { self.heap }
+    pub closed spec fn globenv_spec(&self) -> crate::vm::environment::GlobalEnvironment { self.globenv }
+}
 '''
 
 RUN_PRELUDE = r'''
